@@ -23,7 +23,7 @@ var R = hx.NewRecorder("C15", "cases = (endpoint kind: GMSSL client | GMSSL-only
 	"oracle = Handshake() returns (quiescence of the in-memory transport turns waiting into EOF; a read-after-EOF counter catches spinning), returns an error for every true deviation, HandshakeComplete stays false, no panic; legal variations (fragmented or coalesced messages, unknown ticket) must still succeed; non-trivial = deviation applied after at least one valid message or in the first message; distinct by hash of the plan")
 
 func TestMain(m *testing.M) {
-	R.Require("hello_ext_sweep", "dev:big_record", "replay_deep:gmclient", "replay_deep:tlsclient", "replay_deep:gmserver", "replay_deep:tlsserver", "replay_deep:autoserver", "replay_control", "replay:omit_msg", "replay:hello_ext", "replay:swap_msgs", "hello_vector_lengths", "dev:cke_ciphertext_byte", "dev:cert_list", "peer_pressed_on_after_alert", "endpoint:gmclient", "endpoint:gmserver", "endpoint:autoserver", "endpoint:tlsserver", "endpoint:tlsclient", "vers_sweep_done", "dev:omit", "dev:repeat", "dev:retype", "dev:reorder", "dev:truncate", "dev:len_field", "dev:split", "dev:coalesce",
+	R.Require("ecdhe_ske", "hello_ext_sweep", "dev:big_record", "replay_deep:gmclient", "replay_deep:tlsclient", "replay_deep:gmserver", "replay_deep:tlsserver", "replay_deep:autoserver", "replay_control", "replay:omit_msg", "replay:hello_ext", "replay:swap_msgs", "hello_vector_lengths", "dev:cke_ciphertext_byte", "dev:cert_list", "peer_pressed_on_after_alert", "endpoint:gmclient", "endpoint:gmserver", "endpoint:autoserver", "endpoint:tlsserver", "endpoint:tlsclient", "vers_sweep_done", "dev:omit", "dev:repeat", "dev:retype", "dev:reorder", "dev:truncate", "dev:len_field", "dev:split", "dev:coalesce",
 		"dev:oversize", "dev:ccs_early", "dev:appdata_early", "dev:alert_fatal", "dev:unknown_record", "dev:close", "dev:record_overflow", "replay_perturbed", "legal_must_succeed", "cke_1byte", "hostile_suites")
 	for d := 0; d <= 5; d++ {
 		R.Require(fmt.Sprintf("depth:%d", d))
@@ -1008,4 +1008,63 @@ func FuzzC15Stream(f *testing.F) {
 			t.Fatalf("endpoint %s reports a COMPLETED handshake against a byte stream (hs=%v complete=%v)", ep, hsErr, complete)
 		}
 	})
+}
+
+// A server that selects an ECDHE-SM2 suite (the client offers them by default although the library's own server never
+// selects them): ServerKeyExchange with every curve id class, signature parts of every short length, corrupted or
+// foreign signatures. The client must answer with an error - never a panic, never a ClientKeyExchange after a
+// signature that does not verify.
+func TestC15_ECDHEServerKeyExchange(t *testing.T) {
+	p := tlsx.GetPKI()
+	n := 0
+	type tc struct {
+		name    string
+		e       rgmssl.ECDHEOpts
+		sigGood bool
+	}
+	var cases []tc
+	for _, cid := range []uint16{0, 1, 23, 24, 25, 29, 30, 41, 0x0099, 0xff01, 0xffff} {
+		cases = append(cases, tc{fmt.Sprintf("curve id %#x, genuine signature", cid), rgmssl.ECDHEOpts{CurveID: cid}, true})
+	}
+	for k := 0; k <= 4; k++ {
+		cases = append(cases, tc{fmt.Sprintf("signature part of %d bytes", k), rgmssl.ECDHEOpts{CurveID: 41, RawTail: bytes.Repeat([]byte{0}, k)}, false})
+	}
+	cases = append(cases,
+		tc{"signature length field larger than the rest", rgmssl.ECDHEOpts{CurveID: 41, RawTail: []byte{0, 80, 0x30, 0x06, 2, 1, 1, 2, 1, 1}}, false},
+		tc{"corrupted signature", rgmssl.ECDHEOpts{CurveID: 41, CorruptSig: true}, false},
+		tc{"signature by an unrelated key", rgmssl.ECDHEOpts{CurveID: 41, SignD: p.SrvSignBad.SM2D}, false},
+		tc{"signature by an unrelated key, curve 29", rgmssl.ECDHEOpts{CurveID: 29, SignD: p.SrvSignBad.SM2D}, false},
+		tc{"signature by the encryption key", rgmssl.ECDHEOpts{CurveID: 41, SignD: p.SrvEnc.SM2D}, false},
+		tc{"point not on the curve", rgmssl.ECDHEOpts{CurveID: 41, Point: append([]byte{4}, bytes.Repeat([]byte{7}, 64)...)}, true},
+		tc{"empty point", rgmssl.ECDHEOpts{CurveID: 41, Point: []byte{}}, true},
+		tc{"compressed-looking point", rgmssl.ECDHEOpts{CurveID: 41, Point: append([]byte{2}, bytes.Repeat([]byte{9}, 32)...)}, true},
+	)
+	for _, suite := range []uint16{0xe011, 0xe051} {
+		for _, c := range cases {
+			for _, skip := range []bool{false, true} {
+				n++
+				cc := tlsx.GMClient(p, fmt.Sprint("ecdhe", n))
+				cc.CipherSuites = nil // the defaults, which include the ECDHE-SM2 suites
+				if n%3 == 0 {
+					cc.CipherSuites = []uint16{suite, tlsx.GMECCSM4CBCSM3}
+				}
+				cc.InsecureSkipVerify = skip
+				e := c.e
+				e.Suite = suite
+				so := rgmssl.ServerOpts{ID: p.ServerIdentity(), ECDHE: &e}
+				r := tlsx.RunAgainstScriptedServer(cc, so, nil, fmt.Sprint("ecdhe", n), []byte("x"))
+				desc := fmt.Sprintf("ECDHE-SM2 suite %x, %s, skipVerify=%v | client hs=%v | after the server flight the client sent: %s | log %v", suite, c.name, skip, r.GM.HSErr, r.Peer.AfterFlight, r.Peer.Log)
+				if r.GM.Panic != nil {
+					t.Fatalf("the client PANICKED on a ServerKeyExchange of a server that selected an ECDHE-SM2 suite: %s\n%s", r.GM.Panic, desc)
+				}
+				if r.GM.HSErr == nil {
+					t.Fatalf("the client reports a completed handshake with a server that cannot have finished it\n%s", desc)
+				}
+				if !c.sigGood && r.Peer.AfterFlight == "ClientKeyExchange" {
+					t.Fatalf("the client went on to send its ClientKeyExchange although the ServerKeyExchange signature does not verify under the certified signing key\n%s", desc)
+				}
+				R.Case(true, hx.HashKey("ecdhe", suite, c.name, skip), "ecdhe_ske", "endpoint:gmclient")
+			}
+		}
+	}
 }
